@@ -42,6 +42,7 @@ Run13 ==
             /\ base' = e /\ UNCHANGED bad
             /\ cnt' = Bump(cnt, "runs")
        [] e.mode = "inplace" ->
+            /\ base.outcome # "none"      \* a variant run needs its reference run (else: malformed trace)
             /\ UNCHANGED base
             /\ bad' = Flag(bad, InPlaceHolds(cur, base, e), Sig13(DeviationFor(cur, base, e)),
                            [case |-> cur, normal |-> base, run |-> e])
@@ -52,6 +53,7 @@ Run13 ==
                       IN Bump(Bump(IF ok THEN c0 ELSE Bump(c0, "bad_convention"), "runs"),
                               IF base.outcome = "ok" THEN "compared" ELSE "ref_failed")
        [] e.mode = "commuted" ->
+            /\ base.outcome # "none"
             /\ UNCHANGED base
             /\ bad' = Flag(bad, CommutedHolds(cur, base, e), Sig13(DeviationFor(cur, base, e)),
                            [case |-> cur, normal |-> base, run |-> e])
@@ -68,6 +70,7 @@ Run14 ==
             /\ base' = e /\ UNCHANGED bad
             /\ cnt' = Bump(cnt, "runs")
        [] e.mode = "layout" ->
+            /\ base.outcome # "none"
             /\ UNCHANGED base
             /\ bad' = Flag(bad, LayoutHolds(cur, base, e), Sig14(DeviationFor(cur, base, e)),
                            [case |-> cur, base |-> base, run |-> e])
